@@ -347,3 +347,19 @@ Example C02_join_examples :
   /\ o_cur (run_join (T "ab" ++ [10] ++ T "c") 1 0) = 2%nat
   /\ o_text (run_join (T "ab" ++ [10] ++ T "c") 1 3) = T "ab" ++ [10] ++ T "c".
 Proof. vm_compute. repeat split. Qed.
+
+(** (23) j and k (with counts; the column is a display column: a character that takes two cells counts two): from a
+    position in the text they land on a position in the text. *)
+Theorem C02_move_vert_in_text :
+  forall (t : text) (down : bool) (count i : nat), (i <= length t)%nat -> (move_vert t down count i <= length t)%nat.
+Proof. exact move_vert_in_text. Qed.
+Print Assumptions C02_move_vert_in_text.
+
+(** from the second column of "ab" j goes to the second cell of a two-cell character: that character; k from "." behind a
+    two-cell character lands on the third cell of the line above *)
+Example C02_move_vert_examples :
+  move_vert (T "ab" ++ [10] ++ [26085; 26412]%N) true 1 1 = 3%nat
+  /\ move_vert ([26412; 233; 97]%N ++ [10] ++ [26412; 46; 233]%N) false 1 5 = 1%nat
+  /\ move_vert (T "ab" ++ [10] ++ T "c") true 3 1 = 3%nat
+  /\ move_vert (T "ab" ++ [10] ++ T "c") true 1 3 = 3%nat.
+Proof. vm_compute. repeat split. Qed.
